@@ -176,6 +176,8 @@ pub enum CfgChange {
     Staker(u8),
     Collector(u8),
     Channel(bool),
+    /// batch period (false) or unbonding period (true) near the top of u64 (C16)
+    PeriodHuge(u8, bool),
 }
 
 #[derive(Clone, Debug, PartialEq, Serialize, Deserialize)]
@@ -318,6 +320,8 @@ pub struct Profile {
     pub fail_injection: bool,
     /// UpdateConfig may change staker, collector and channel (C09)
     pub identity_changes: bool,
+    /// periods near u64::MAX in setups and updates (C16)
+    pub extreme_periods: bool,
 }
 
 impl Profile {
@@ -351,6 +355,7 @@ impl Profile {
             forced_inflight: false,
             fail_injection: true,
             identity_changes: false,
+            extreme_periods: false,
         }
     }
 }
@@ -521,6 +526,8 @@ pub fn op_strategy(p: &Profile) -> BoxedStrategy<Op> {
         3 => prop_oneof![(0u8..6).prop_map(CfgChange::Staker), (0u8..6).prop_map(CfgChange::Collector), any::<bool>().prop_map(CfgChange::Channel)],
     ];
     let ident = p.identity_changes;
+    let extreme = p.extreme_periods;
+    let change = prop_oneof![20 => change, 1 => (0u8..4, any::<bool>()).prop_map(move |(k, w)| if extreme { CfgChange::PeriodHuge(k, w) } else { CfgChange::Identity })];
     let change = change.prop_map(move |c| match c {
         CfgChange::Staker(_) | CfgChange::Collector(_) | CfgChange::Channel(_) if !ident => CfgChange::Identity,
         c => c,
@@ -571,7 +578,10 @@ pub fn op_strategy(p: &Profile) -> BoxedStrategy<Op> {
 }
 
 pub fn setup_strategy(p: &Profile) -> BoxedStrategy<Setup> {
-    let periods = if p.short_periods {
+    let periods = if p.extreme_periods {
+        let big = || prop_oneof![30 => 0u64..3000, 1 => Just(u64::MAX), 1 => Just(u64::MAX - 1_700_000_000), 1 => Just(u64::MAX - 1_700_000_001), 1 => Just(u64::MAX / 2)];
+        (big(), big()).boxed()
+    } else if p.short_periods {
         (prop_oneof![Just(0u64), 1u64..50, 50u64..2000], prop_oneof![Just(0u64), 1u64..50, 50u64..3000]).boxed()
     } else {
         (Just(86400u64), Just(1209600u64)).boxed()
